@@ -1,7 +1,10 @@
 /-
 C02 — Logical streams deliver bytes intact, in order, exactly once, without cross-talk.
 Over the link model (every action sequence, every window and threshold) for the byte-level
-statements; over the endpoint model (every state, every frame) for "no cross-talk".
+statements; over the endpoint model (every state, every frame) for "no cross-talk"; over the pair of
+endpoint models for the running phase; and over EVERY history of one endpoint model with ANY peer
+(wind-down, faults and misbehaving peers included) for receiver and sender integrity
+(`receiver_integrity_every_history`, `sender_integrity_every_history`, …).
 -/
 import Penguin.Model.Link
 import Penguin.Model.Mux
@@ -10,6 +13,7 @@ import Penguin.Lemmas.Link
 import Penguin.Lemmas.MuxStep
 import Penguin.Lemmas.PairHarness
 import Penguin.Lemmas.PairBytes
+import Penguin.Lemmas.MuxIntegritySrc
 
 namespace Penguin.C02
 open Penguin Penguin.Link
@@ -174,6 +178,206 @@ example : Pair.Established (PairBytes.runb (PairBytes.initb pcfg pcfg [7, 8] [9,
   ⟨by decide, by decide, by decide, by decide, by decide⟩
 example : (PairBytes.runb (PairBytes.initb pcfg pcfg [7, 8] [9, 10]) pactsW).ab = [.bin [0x74, 0, 0, 0, 7, 1, 2, 3]] := by decide
 example : (PairBytes.runb (PairBytes.initb pcfg pcfg [7, 8] [9, 10]) pactsW).ga.wlog 0 = [1, 2, 3] := by decide
+
+/-! ### Stream integrity for EVERY history of ONE endpoint with ANY peer
+
+The pair theorems above speak about two conforming endpoints while the connection runs.  The theorems
+below speak about one endpoint (`Mux.EP`) and every history of stimuli `Mux.Op` from the fresh state:
+application calls, faults, and deliveries of ARBITRARY incoming messages — the peer is unconstrained;
+wind-down, a dropped `Multiplexor`, transport errors, undecodable frames, window overruns and flow ids
+reused by the peer are all inside the quantifier.  `Mux.runOpsG` runs the history and keeps the record
+of what could be observed (`Mux.Ghost`):
+* `accepted` — `(i, d)`: `process_frame` accepted a `Push` with payload `d` into stream object `i`.  This
+  is decided by `process_frame`'s own test evaluated on the state BEFORE the frame is processed
+  (`Mux.acceptedInto`: the frame's flow id has a slot `Established i`, the object still has its `Sender`,
+  an open `Receiver` and room in its bounded queue), frame by frame along the task's run
+  (`Mux.settleLog` mirrors `settleLoop`/`windDown`: several inbox items can be processed per stimulus);
+* `returned` — `(i, bs)`: a `read` through a handle of object `i` answered `data bs` (from the call's result);
+* `discarded` — `(i, bs)`: the application dropped the handle of object `i` while `bs` was queued unread;
+* `wrote` — `(i, x, d)`: a `write` of `d ≠ []` through a handle of object `i` (flow id `x`) answered `wrote`;
+* `evs` — every event the endpoint emitted (`Ev.wire m` = `m` was handed to the transport).
+None of these is defined from the fields the theorems equate them with. -/
+
+open Penguin.Mux in
+/-- Receiver integrity.  After every history, for every stream object `i`: the bytes its reads have
+    returned, then the handle's buffer, then the queued frames, then what was thrown away when the
+    handle was dropped, are — in order, each byte once — exactly the payloads of the `Push` frames that
+    `process_frame` accepted into THAT object.  Nothing else ever enters a stream: not a frame of another
+    flow, not a frame that arrived while another object (or none) held the id, not a datagram, nothing
+    the wind-down does; and nothing accepted is lost or reordered, through the wind-down included. -/
+theorem receiver_integrity_every_history (o : Opts) (ops : List Mux.Op) (i : Nat) (ob : Obj)
+    (hi : (runOps { opts := o } ops).objs[i]? = some ob) :
+    let g := (runOpsG { opts := o } {} ops).2
+    chunks g.returned i ++ ob.buf ++ ob.rxq.flatten ++ chunks g.discarded i = chunks g.accepted i := by
+  have h := (receiver_inv o ops).eq i
+  rw [← runOpsG_fst _ {} ops] at hi
+  simp only [Mux.str, strO, hi, Obj.stream] at h
+  simpa [List.append_assoc] using h
+
+open Penguin.Mux in
+/-- … and as long as no stream handle was dropped nothing is discarded: read ++ buffered ++ queued is
+    exactly what was accepted.  (`Mux.discardedBy_spec`: only `dropStream` on a handle of `i` ever
+    discards bytes of object `i`.) -/
+theorem receiver_integrity_no_drop (o : Opts) (ops : List Mux.Op) (hnd : ∀ op ∈ ops, ∀ h, op ≠ Mux.Op.dropStream h)
+    (i : Nat) (ob : Obj) (hi : (runOps { opts := o } ops).objs[i]? = some ob) :
+    let g := (runOpsG { opts := o } {} ops).2
+    chunks g.returned i ++ ob.buf ++ ob.rxq.flatten = chunks g.accepted i := by
+  have h := receiver_integrity_every_history o ops i ob hi
+  have hd := discarded_nil_of_no_drop { opts := o } {} ops hnd
+  simp only at h ⊢
+  rw [hd] at h
+  simpa using h
+
+open Penguin.Mux in
+/-- What a stream's reader has seen is, at every moment of every history, a prefix of the payloads of
+    the `Push` frames accepted into its object, in order. -/
+theorem reads_are_prefix_of_accepted_pushes (o : Opts) (ops : List Mux.Op) (i : Nat) :
+    chunks (runOpsG { opts := o } {} ops).2.returned i <+: chunks (runOpsG { opts := o } {} ops).2.accepted i := by
+  have h := (receiver_inv o ops).eq i
+  rw [← h, List.append_assoc]
+  exact List.prefix_append _ _
+
+open Penguin.Mux in
+/-- Where accepted frames come from.  The payloads accepted into stream objects (all objects together,
+    in the order of acceptance) are a SUBSEQUENCE of the payloads of the `Push` frames the transport
+    delivered, in delivery order: a delivered `Push` is accepted at most once, into at most one object,
+    never out of order, and nothing that was not delivered as a `Push` is ever accepted.  The frames of
+    one object are a subsequence of those, and its byte stream is their concatenation. -/
+theorem accepted_pushes_are_delivered_once_in_order (o : Opts) (ops : List Mux.Op) (i : Nat) :
+    let g := (runOpsG { opts := o } {} ops).2
+    List.Sublist (Log.data g.accepted) (deliveredData ops) ∧
+    List.Sublist (Log.dataOf g.accepted i) (Log.data g.accepted) ∧
+    chunks g.accepted i = (Log.dataOf g.accepted i).flatten :=
+  ⟨accepted_sublist_delivered o ops, Log.dataOf_sub _ i, chunks_eq_flatten _ i⟩
+
+open Penguin.Mux in
+/-- Sender integrity.  After every history: the `Push` frames handed to the transport so far, followed
+    by those still in the outbound queue, are — as (flow id, payload), in order — a prefix of the writes
+    that answered `wrote` (each with the flow id of the object behind the handle used, which is the
+    object's own id for ever: third conjunct), and they are ALL of them as long as the outbound queue
+    is open.  So every successful write is sent exactly once, in order, under its own stream's id, and
+    no other `Push` is ever enqueued or sent — whatever the peer does; once the connection is torn down
+    after an error or a Close what was still queued is dropped (a prefix was sent), after a dropped
+    `Multiplexor` it is sent first.  (`g.evs` is `(Mux.runOpsEv _ ops).2`: `Mux.runOpsG_evs`.) -/
+theorem sender_integrity_every_history (o : Opts) (ops : List Mux.Op) :
+    let e := runOps { opts := o } ops
+    let g := (runOpsG { opts := o } {} ops).2
+    (pushesEv g.evs ++ pushesQ e.outq <+: wroteFrames g.wrote) ∧
+    (e.outClosed = false → pushesEv g.evs ++ pushesQ e.outq = wroteFrames g.wrote) ∧
+    (∀ w ∈ g.wrote, ∃ ob, e.objs[w.1]? = some ob ∧ ob.fid = w.2.1) := by
+  have h := sender_inv o ops
+  have hw := wrote_ids { opts := o } {} ops (by intro w hw; cases hw)
+  rw [runOpsG_fst] at h hw
+  exact ⟨h.1, h.2, hw⟩
+
+open Penguin.Mux in
+/-- No cross-talk, history form.  In every state (so after every history) and for every stimulus: the
+    readable bytes of stream object `i` change only by `i`'s own events — if the stimulus returns nothing
+    from `i`, discards nothing of `i`, and no frame is accepted into `i` while the task runs, they are
+    exactly what they were, whatever happens to other streams and to the connection.  And those events
+    are tied to `i`: bytes are returned from `i` only by a `read` through a handle of `i`; a frame is
+    accepted into `i` only if it is a `Push` whose flow id is at that moment the id of the slot
+    `Established i` — and it is then accepted into no other object and leaves every other object's
+    readable bytes untouched. -/
+theorem no_crosstalk_every_history (e : EP) (op : Mux.Op) (i : Nat) :
+    (chunks (settleLog (opStep e op).1) i = [] → chunks (returnedBy e op (applyOp e op).2.1) i = [] →
+      chunks (discardedBy e op) i = [] → str (applyOp e op).1 i = str e i) ∧
+    (∀ bs, (i, bs) ∈ returnedBy e op (applyOp e op).2.1 →
+      ∃ h n, op = .read h n ∧ (applyOp e op).2.1 = .data bs ∧ e.handles[h]? = some i) ∧
+    (∀ (e' : EP) (f : Frame) (ig : Bool) (d : Bytes), (i, d) ∈ acceptedInto e' f →
+      (∃ fid, f = .push fid d ∧ lookup e'.flows fid = some (.established i) ∧ acceptedInto e' f = [(i, d)]) ∧
+      ∀ j, j ≠ i → str (processFrame e' f ig).1 j = str e' j) :=
+  ⟨stream_changes_only_by_own_events e op i,
+   fun bs h => returnedBy_spec e op _ i bs h,
+   fun e' f ig d h => ⟨acceptedInto_spec e' f i d h, fun j hj => accepted_frame_touches_one_object e' f ig i j d h hj⟩⟩
+
+/-! Non-vacuity of the every-history theorems (windows 2, threshold 1; the peer opens the streams). -/
+private def hcfg : Mux.Opts := { rwnd := 2, threshold := 1 }
+private def fr (f : Frame) : Mux.Op := .deliver (.msg (.frame f))
+
+/-- Two streams (flow ids 5 and 6, objects 0 and 1), `Push` frames interleaved, reads interleaved. -/
+private def hTwo : List Mux.Op :=
+  [fr (.connect 5 4 80 [104]), fr (.connect 6 4 81 [105]), .accept, .accept,
+   fr (.push 5 [1, 2]), fr (.push 6 [9]), fr (.push 5 [3]), .read 0 1, .read 1 5, .read 0 5]
+open Penguin.Mux in
+example : (runOpsG { opts := hcfg } {} hTwo).2.accepted = [(0, [1, 2]), (1, [9]), (0, [3])] ∧
+    (runOpsG { opts := hcfg } {} hTwo).2.returned = [(0, [1]), (1, [9]), (0, [2])] ∧
+    chunks (runOpsG { opts := hcfg } {} hTwo).2.accepted 0 = [1, 2, 3] ∧
+    chunks (runOpsG { opts := hcfg } {} hTwo).2.returned 0 = [1, 2] ∧
+    (runOps { opts := hcfg } hTwo).objs.map (fun ob => (ob.buf, ob.rxq)) = [([], [[3]]), ([], [])] ∧
+    deliveredData hTwo = [[1, 2], [9], [3]] := by decide
+/-! … no handle is dropped in it (hypothesis of `receiver_integrity_no_drop`), and its second read is an
+    event of object 1 in the sense of `no_crosstalk_every_history`. -/
+example : ∀ op ∈ hTwo, ∀ h, op ≠ Mux.Op.dropStream h := by
+  intro op hop h heq
+  subst heq
+  simp [hTwo, fr] at hop
+open Penguin.Mux in
+example : (1, [9]) ∈ returnedBy (runOps { opts := hcfg } (hTwo.take 8)) (.read 1 5)
+    (applyOp (runOps { opts := hcfg } (hTwo.take 8)) (.read 1 5)).2.1 := by decide
+
+/-- The connection ends (the peer sends Close) with two frames still queued; the reader then reads
+    them all, and only then sees end-of-stream. -/
+private def hEnd : List Mux.Op :=
+  [fr (.connect 5 4 80 [104]), .accept, fr (.push 5 [1, 2]), fr (.push 5 [3]), .deliver (.msg .close),
+   .read 0 9, .read 0 9]
+open Penguin.Mux in
+example : (runOps { opts := hcfg } (hEnd.take 5)).dead = true ∧
+    (runOps { opts := hcfg } (hEnd.take 5)).objs.map (fun ob => (ob.buf, ob.rxq)) = [([], [[1, 2], [3]])] ∧
+    chunks (runOpsG { opts := hcfg } {} hEnd).2.returned 0 = [1, 2, 3] ∧
+    chunks (runOpsG { opts := hcfg } {} hEnd).2.accepted 0 = [1, 2, 3] ∧
+    (applyOp (runOps { opts := hcfg } hEnd) (.read 0 9)).2.1 = .eof := by decide
+
+/-- A misbehaving peer: a `Push` on an unknown flow (77), a datagram carrying stream 6's id, and a window
+    overrun on stream 5 (third `Push` into a queue of 2: the flow is closed and reset, the fourth finds
+    no flow) — while stream 6 accepts and keeps its frames, and stream 5's reader still gets, in order,
+    what had been accepted. -/
+private def hBad : List Mux.Op :=
+  [fr (.connect 5 4 80 [104]), fr (.connect 6 4 81 [105]), .accept, .accept,
+   fr (.push 77 [7, 7]), fr (.push 6 [9]), fr (.push 5 [1]), fr (.push 5 [2]), fr (.push 5 [3]), fr (.push 5 [4]),
+   fr (.push 6 [8]), fr (.datagram 6 1 [1] [66]), .read 1 9, .read 0 9]
+open Penguin.Mux in
+example : (runOpsG { opts := hcfg } {} hBad).2.accepted = [(1, [9]), (0, [1]), (0, [2]), (1, [8])] ∧
+    (runOpsG { opts := hcfg } {} hBad).2.returned = [(1, [9]), (0, [1])] ∧
+    (runOps { opts := hcfg } hBad).flows = [(6, .established 1)] ∧
+    (runOps { opts := hcfg } hBad).objs.map (fun ob => (ob.buf, ob.rxq, ob.senderAlive)) =
+      [([], [[2]], false), ([], [[8]], true)] ∧
+    deliveredData hBad = [[7, 7], [9], [1], [2], [3], [4], [8]] := by decide
+
+/-- A handle is dropped with a frame queued: the frame is accounted for as discarded. -/
+private def hDrop : List Mux.Op :=
+  [fr (.connect 5 4 80 [104]), .accept, fr (.push 5 [1, 2]), fr (.push 5 [3]), .read 0 1, .dropStream 0]
+open Penguin.Mux in
+example : chunks (runOpsG { opts := hcfg } {} hDrop).2.returned 0 = [1] ∧
+    (runOps { opts := hcfg } hDrop).objs.map (fun ob => (ob.buf, ob.rxq)) = [([2], [])] ∧
+    chunks (runOpsG { opts := hcfg } {} hDrop).2.discarded 0 = [3] ∧
+    chunks (runOpsG { opts := hcfg } {} hDrop).2.accepted 0 = [1, 2, 3] := by decide
+
+/-- Sender: four successful writes (an empty one in between sends nothing), the transport accepting
+    only the first two frames so far; a fifth write finds no credit.  Then the transport fails: the two
+    queued frames are dropped with the connection, a later write is refused — a prefix was sent. -/
+private def hSend : List Mux.Op :=
+  [fr (.connect 5 4 80 [104]), .accept, .write 0 [1, 2], .write 0 [], .write 0 [3], .sinkRoom (some 0),
+   .write 0 [4], .write 0 [5], .write 0 [6]]
+open Penguin.Mux in
+example : (runOpsG { opts := hcfg } {} hSend).2.wrote = [(0, 5, [1, 2]), (0, 5, [3]), (0, 5, [4]), (0, 5, [5])] ∧
+    pushesEv (runOpsG { opts := hcfg } {} hSend).2.evs = [(5, [1, 2]), (5, [3])] ∧
+    pushesQ (runOps { opts := hcfg } hSend).outq = [(5, [4]), (5, [5])] ∧
+    (runOps { opts := hcfg } hSend).outClosed = false := by decide
+open Penguin.Mux in
+example : (runOpsG { opts := hcfg } {} (hSend ++ [.deliver .err, .write 0 [7]])).2.wrote =
+      [(0, 5, [1, 2]), (0, 5, [3]), (0, 5, [4]), (0, 5, [5])] ∧
+    pushesEv (runOpsG { opts := hcfg } {} (hSend ++ [.deliver .err, .write 0 [7]])).2.evs = [(5, [1, 2]), (5, [3])] ∧
+    (runOps { opts := hcfg } (hSend ++ [.deliver .err, .write 0 [7]])).outq = [] ∧
+    (runOps { opts := hcfg } (hSend ++ [.deliver .err, .write 0 [7]])).outClosed = true := by decide
+
+/-! No cross-talk: the hypotheses of the first part are met for object 1 by a `Push` for object 0's flow
+    (and object 1 has bytes to keep); those of the last part by that same `Push`. -/
+open Penguin.Mux in
+example : chunks (settleLog (opStep (runOps { opts := hcfg } (hTwo.take 6)) (fr (.push 5 [3]))).1) 1 = [] ∧
+    chunks (settleLog (opStep (runOps { opts := hcfg } (hTwo.take 6)) (fr (.push 5 [3]))).1) 0 = [3] ∧
+    str (runOps { opts := hcfg } (hTwo.take 6)) 1 = [9] ∧
+    (0, [3]) ∈ acceptedInto (runOps { opts := hcfg } (hTwo.take 6)) (.push 5 [3]) := by decide
 
 /-! Non-vacuity -/
 example : (run (init 2 2) [.write [1, 2, 3], .deliver, .read 2, .write [4], .deliver, .read 9, .read 9]).delivered
